@@ -613,6 +613,21 @@ def run(chk: Check) -> None:
     for h in oh:
         C.add(f"popt {cps(h)}", lambda: (lambda r: "ok " + cps(r[0]) + ";" + fod(r[1]))(H.parse_options_header(h)))
 
+    # always-quoted parameter values without escaping (what the multipart encoder writes): C06_options_always_quoted
+    for _ in range(n // 2):
+        o = {}
+        for k in rng.sample(["name", "filename", "x-y", "a", "k1"], rng.randint(1, 3)):
+            o[k] = _s(rng, [a for a in VAL_ATOMS if '"' not in a and "\\" not in a and a != "%22"], 0, 6).replace("%22", "%2")
+        hd = rng.choice(["form-data", "attachment", "text/html"])
+        text = hd + "".join(f'; {k}="{v}"' for k, v in o.items())
+        C.add(f"popt {cps(text)}", lambda: (lambda r: "ok " + cps(r[0]) + ";" + fod(r[1]))(H.parse_options_header(text)))
+        try:
+            back = T(lambda: H.parse_options_header(text))
+        except Exception as e:  # noqa: BLE001
+            back = repr(e)
+        if back != (hd, o):
+            rt_fail("options-always-quoted", f"parse_options_header({text!r}) = {back!r}", {"header": hd, "options": o})
+
     # ------------------------------------------------------------ entity tags
     def gen_tag():
         return (gen_value(rng).replace('"', "'") or "t")
